@@ -76,6 +76,33 @@ def run(ctx):
                 ctx.sample({"history": H.log[:4]})
         if ctx.violations:
             break
+    # targeted: content that leaves the tree for one or two runs and comes back (same or another path) while its group still holds it
+    for absent_runs in ((1, 2) if not ctx.violations else ()):
+        with slevel.Sandbox("c09") as sb:
+            H = runs.History(ctx, sb, rng, "C09", 3, 6, nitems=2, identity_changes=True)
+            H.advance = lambda: None
+            H.now += 3600
+            H.w.populate(nfiles=5)
+            top0, top1 = (os.path.join(H.w.src, it) for it in H.w.items)
+            blob = bytes((i * 7 + absent_runs) % 251 for i in range(30000))
+            H.w.write_file(os.path.join(top0, "holiday.bin"), blob)
+            H.w.write_file(os.path.join(top1, "holiday-copy.bin"), blob)
+            steps = [lambda: None,
+                     lambda: (H.w.remove(os.path.join(top0, "holiday.bin")), H.w.remove(os.path.join(top1, "holiday-copy.bin")))]
+            steps += [lambda: H.w.edit()] * (absent_runs - 1)
+            steps += [lambda: H.w.write_file(os.path.join(top1, "back-again.bin"), blob), lambda: None]
+            for i, step in enumerate(steps):
+                step()
+                H.now += 61
+                trace = sb.path("trace-t%d.txt" % i)
+                before = H.dec
+                res, published, name = H.run(nedits=0, backup_kwargs={"prefix": ["strace", "-f", "-o", trace, "-e", "trace=openat,read,close"]})
+                if published and os.path.exists(trace):
+                    check_reads(ctx, H, name, before, trace)
+                if ctx.violations:
+                    break
+            ctx.count("targeted.content-returns-after-%d-runs" % absent_runs)
+            H.report_diffs("backup-run")
     ctx.traces = ctx.evaluations
     ctx.assumptions += ["source files are static during each run", "strace reports every read(2) of the traced process tree"]
 
